@@ -1106,7 +1106,8 @@ def run(ctx):
                 "on the real FacadeAppleTV incl. failing takeovers, unknown keys, duplicate keys, double releases; "
                 "(d) the real pyatv.connect() with PROTOCOLS replaced by fakes that keep their Core, all 31 subsets: every "
                 "protocol takes over through ITS OWN core.takeover (the partial bound in connect()), a second one fails and "
-                "must roll back, release; plus random histories. "
+                "must roll back, release; plus random histories; (e) the real AirPlayStream.play_url / RaopStream.stream_file "
+                "on a real FacadeAppleTV with each collaborator named in their source failing: no takeover may be left. "
                 "non-trivial = some instance executed the call / some takeover succeeded; distinct by canonical case")
     # ---------------------------------------------------------------- corpus first
     for fname, d in common.load_corpus(ctx.pid):
@@ -1300,6 +1301,30 @@ def run(ctx):
                 hmeta.append({"via_connect": order, "ops": ops[:n + 1], "results": res[:n + 1], "holders": states[n]})
     run_cases_in_coq(ctx, "history", HEADER, "list op * list opres * list (list proto)", "check_history", hcases,
                      lambda b: hmeta[b], per=600)
+    # ---------------------------------------------------------------- (e) failing streaming entry points give the takeover back
+    os.makedirs(common.BUILD, exist_ok=True)
+    localfile = os.path.join(common.BUILD, "c01_local_file.bin")
+    with open(localfile, "wb") as f:
+        f.write(b"\0" * 16)
+    try:
+        efc = entry_fault_cases()
+    except Exception:  # noqa
+        efc = []
+        ctx.tie_broken("entry-points", "streaming entry points of AirPlayStream / RaopStream not found")
+    for proto, entry, tgt, mode in efc:
+        try:
+            r = vloop.run(drive_entry_fault, proto, entry, tgt, mode, localfile)
+        except Exception as ex:  # noqa
+            ctx.count("entry-fault:harness-error")
+            continue
+        ctx.traces += 1
+        ctx.case(("entry-fault", proto, entry, tuple(tgt), mode), nontrivial=r["exception"] is not None)
+        ctx.count("entry-fault:" + str(r["exception"]))
+        v = judge_entry_fault(r)
+        if v:
+            ctx.violation(v[0], "%s.%s with %s failing (%s): %s" % (proto, entry, ".".join(tgt), mode, v[1]),
+                          {"kind": "entry-fault", "protocol": proto, "entry": entry, "collaborator": tgt, "mode": mode, "observed": r})
+    ctx.extra["entry_fault_points"] = [[a, b, ".".join(c)] for a, b, c, d in efc if d == "call"]
     ctx.note("histories done %.1fs" % (time.time() - ctx.t0))
     ctx.extra["gen_tables"] = {"default_ast": t["default_ast"], "power_ast": t["power_ast"], "rows": len(rows),
                                "real_override_table": t["real"]}
@@ -1328,6 +1353,143 @@ def fallback_tables():
                 "KBroadcast" if (i, m) in (("PushUpdater", "start"), ("PushUpdater", "stop")) else "KRelay"
             t["rows"].append({"iface": i, "member": m, "mkind": kind, "kind": k, "target": m, "arg": None})
     return t
+
+
+# ----------------------------------------------------------------------- real streaming entry points
+
+def entry_collaborators(fn):
+    """Module-level callables the entry point calls, read from its source: ['name'] or ['module', 'attr']."""
+    import re
+    import types
+    src = inspect.getsource(fn)
+    g = fn.__globals__
+    out = []
+    for m in re.finditer(r"(?<![\w.])([A-Za-z_]\w*)(?:\.([A-Za-z_]\w*))?\(", src):
+        a, b = m.group(1), m.group(2)
+        if a in ("self", "super", "int", "str", "bool", "float", "isinstance", "len", "cast") or a not in g:
+            continue
+        obj = g[a]
+        if isinstance(obj, types.ModuleType):
+            tgt = getattr(obj, b, None) if b else None
+            if callable(tgt) and obj.__name__.startswith("pyatv") and not (
+                    inspect.isclass(tgt) and issubclass(tgt, BaseException)):
+                out.append([a, b])
+        elif callable(obj) and getattr(obj, "__module__", "").startswith("pyatv") and not (
+                inspect.isclass(obj) and issubclass(obj, BaseException)) and b is None:
+            out.append([a])
+    res = []
+    for x in out:
+        if x not in res:
+            res.append(x)
+    return res
+
+
+class Fault(Exception):
+    pass
+
+
+def faulty(mode):
+    """mode 'call': raises when called; mode 'use': the call returns an object whose every method raises."""
+    class Obj:
+        def __getattr__(self, name):
+            async def boom(*a, **k):
+                raise Fault("verif fault in ." + name)
+            return boom
+
+    def f(*a, **k):
+        if mode == "call":
+            raise Fault("verif fault")
+        return Obj()
+    return f
+
+
+async def drive_entry_fault(proto, entry, target, mode, localfile):
+    """Real AirPlay and RAOP objects (their own core.takeover bound as pyatv.connect binds it) next to an MRP stub
+    on a real FacadeAppleTV; the streaming entry point `entry` of `proto` is started with one collaborator
+    failing.  Returns the takeover lists left behind and who executes remote_control.stop afterwards."""
+    from functools import partial
+    from pyatv import conf, interface
+    from pyatv.core import CoreStateDispatcher, MutableService, create_core
+    from pyatv.core.facade import FacadeAppleTV
+    from pyatv.protocols import PROTOCOLS
+    from pyatv.settings import Settings
+    quiet()
+    log = []
+    cfg = conf.AppleTV(IPv4Address("127.0.0.1"), "verif")
+    atv = FacadeAppleTV(cfg, None, CoreStateDispatcher(), Settings())
+    cores = []
+    streams = {}
+    for p in ("AirPlay", "RAOP"):
+        svc = MutableService("verif-id", P(p), 1234, {"features": "0x1"} if p == "AirPlay" else {})
+        cfg.add_service(svc)
+        core = await create_core(cfg, svc, takeover_method=partial(atv.takeover, P(p)))
+        cores.append(core)
+        for sd in PROTOCOLS[P(p)].setup(core):
+            if sd.protocol.name != p:
+                continue
+
+            async def _connect():
+                return True
+            streams[p] = sd.interfaces.get(interface.Stream)
+            atv.add_protocol(sd._replace(connect=_connect, close=lambda: set(), device_info=lambda: {}))
+    atv.add_protocol(stub_setup("MRP", {"RemoteControl": make_stub("RemoteControl", "MRP", ["stop", "pause"], log)}))
+    await atv.connect()
+    st = streams[proto]
+    g = getattr(type(st), entry).__globals__
+    holder = g[target[0]] if len(target) == 2 else g
+    name = target[-1]
+    saved = getattr(holder, name) if len(target) == 2 else holder[name]
+    try:
+        if len(target) == 2:
+            setattr(holder, name, faulty(mode))
+        else:
+            holder[name] = faulty(mode)
+        arg = localfile if entry == "play_url" else "verif-no-such-file"
+        try:
+            await asyncio.wait_for(getattr(st, entry)(arg), 5)
+            exc = None
+        except BaseException as ex:  # noqa
+            exc = type(ex).__name__
+    finally:
+        if len(target) == 2:
+            setattr(holder, name, saved)
+        else:
+            holder[name] = saved
+    left = {i: holder_of(atv, i) for i in IFLIST if holder_of(atv, i)}
+    del log[:]
+    e2 = await invoke(atv.remote_control, "stop", "async", iface_cls("RemoteControl"))
+    res = {"exception": exc, "takeover_left": left, "stop_executed_by": [e[0] for e in log], "stop_exception": e2}
+    for c in cores:
+        try:
+            await c.session_manager.close()
+        except Exception:  # noqa
+            pass
+    return res
+
+
+def entry_fault_cases():
+    """[(protocol, entry point, collaborator, mode)] for the streaming entry points of the real Stream classes."""
+    from pyatv.protocols.airplay import AirPlayStream
+    from pyatv.protocols.raop import RaopStream
+    out = []
+    for proto, cls in (("AirPlay", AirPlayStream), ("RAOP", RaopStream)):
+        for entry in ("play_url", "stream_file"):
+            if entry in cls.__dict__:
+                for tgt in entry_collaborators(cls.__dict__[entry]):
+                    for mode in ("call", "use"):
+                        out.append((proto, entry, tgt, mode))
+    return out
+
+
+def judge_entry_fault(r):
+    if r["exception"] is None:
+        return None
+    if r["takeover_left"]:
+        return ("C01:takeover:left-after-failed-operation", "takeover still held after the operation failed: %s" % r["takeover_left"])
+    if r["stop_executed_by"] != ["MRP"]:
+        return ("C01:route:wrong-protocol", "after the failed operation remote_control.stop was executed by %s (%s), expected MRP" % (
+            r["stop_executed_by"], r["stop_exception"]))
+    return None
 
 
 def exhaustive_histories(depth):
@@ -1382,6 +1544,14 @@ async def replay_one(r, rows, verbose=True):
             if v:
                 return v
         return None
+    if r.get("kind") == "entry-fault":
+        localfile = os.path.join(common.BUILD, "c01_local_file.bin")
+        with open(localfile, "wb") as f:
+            f.write(b"\0" * 16)
+        o = await drive_entry_fault(r["protocol"], r["entry"], r["collaborator"], r["mode"], localfile)
+        if verbose:
+            print("%s.%s with %s failing (%s) -> %s" % (r["protocol"], r["entry"], r["collaborator"], r["mode"], o))
+        return judge_entry_fault(o)
     if r.get("kind") == "relay":
         from pyatv.core.relayer import Relayer
         rel = Relayer(iface_cls("Apps"), [P(p) for p in r["prios"]])
